@@ -15,6 +15,8 @@ Module W := LinkedListStackWrapGen.
 
 (* the wrapped arraylist.List, as the model has it: a sequence *)
 Definition I : W.list_iface := W.mk_list_iface (list Z)
+  (fun l vs => (sll_add vs l, tt))         (* Add(values...) *)
+  (fun l vs => (sll_add vs l, tt))         (* Append(values...) = Add *)
   (fun _ => ([], tt))                      (* Clear() *)
   (fun l => zlen l =? 0)                   (* Empty() *)
   (fun l i => opt_pair (sll_get i l))      (* Get(i) *)
